@@ -10,11 +10,18 @@ def build(ctx):
     return exes.get(("gauss", "plain"))
 
 
-def run_mode(ctx, res, exe, mode, env=None, label=None):
-    """one harness process; a sanitizer abort / leak report becomes a concrete failing input (the last PARAMS line)."""
+def run_mode(ctx, res, exe, mode, env=None, label=None, collect=None):
+    """one harness process; a sanitizer abort / leak report becomes a concrete failing input (the last PARAMS line:
+    for a leak that is the first lifecycle whose allocator accounting left sampler memory allocated, if there is one).
+    `collect` = (prefix, list): the op lines starting with prefix are also appended to the list."""
     before = res.harness_rc
     res.harness_rc = 0
-    h = cl.run_stream(res, label or ("gauss/" + mode), exe, args=[mode], env=env, trivial=lambda lhs: False)
+
+    def keep(l):
+        if collect and l.startswith(collect[0]):
+            collect[1].append(l)
+        return True
+    h = cl.run_stream(res, label or ("gauss/" + mode), exe, args=[mode], env=env, trivial=lambda lhs: False, line_filter=keep if collect else None)
     rc = res.harness_rc
     if rc != 0 and h is not None:
         params = [l[7:] for l in h.stderr.splitlines() if l.startswith("PARAMS ")]
@@ -27,19 +34,34 @@ def run_mode(ctx, res, exe, mode, env=None, label=None):
     return h
 
 
-def gtv_summary(h):
-    worst, n, over = None, 0, 0
-    if h is None:
-        return {}
-    for l in h.stdout.splitlines():
-        if l.startswith("gtv "):
-            n += 1
-            r = int(l.split("=>")[1].split()[0])
-            if r > 1000000:
-                over += 1
-            if worst is None or r > worst[0]:
-                worst = (r, l)
+def _is_pow2(m):
+    return m > 0 and m & (m - 1) == 0
+
+
+def gtv_summary(lines):
+    """gtv W lam m sn sd cn cd ctor => ratio_ppm wp nb hypOK bitprec"""
+    worst, n, over, over_known = None, 0, 0, 0
+    by_m = {"power of two": [0, 0, 0], "not a power of two": [0, 0, 0]}
+    for l in lines:
+        if not l.startswith("gtv "):
+            continue
+        a = l.split("=>")[0].split()
+        r = int(l.split("=>")[1].split()[0])
+        n += 1
+        b = by_m["power of two" if _is_pow2(int(a[3])) else "not a power of two"]
+        b[0] += 1
+        b[2] = max(b[2], r if a[8] != "2" else 0)
+        if r > 1000000:
+            if a[8] == "2":
+                over_known += 1
+                continue
+            over += 1
+            b[1] += 1
+        if a[8] != "2" and (worst is None or r > worst[0]):
+            worst = (r, l)
     return {"parameter_sets": n, "exceeding_bound": over,
+            "exceeding_bound_mpfr256_centre(known finding)": over_known,
+            "by_sample_budget": {k: {"parameter_sets": v[0], "exceeding_bound": v[1], "max_ratio_to_bound": v[2] / 1e6} for k, v in by_m.items()},
             "max_ratio_to_bound": (worst[0] / 1e6) if worst else None, "worst_line": worst[1] if worst else None}
 
 
